@@ -38,11 +38,11 @@ type VerifChainEntry struct {
 
 // VerifSnap is the projection returned by VerifSnapshot.
 type VerifSnap struct {
-	CurrentHeight                      uint64
-	LocalLogIndex, LocalHtlcCounter    uint64
-	RemoteLogIndex, RemoteHtlcCounter  uint64
-	LocalLog, RemoteLog                []VerifLogEntry
-	LocalChain, RemoteChain            []VerifChainEntry
+	CurrentHeight                     uint64
+	LocalLogIndex, LocalHtlcCounter   uint64
+	RemoteLogIndex, RemoteHtlcCounter uint64
+	LocalLog, RemoteLog               []VerifLogEntry
+	LocalChain, RemoteChain           []VerifChainEntry
 	// ModifiedLocal / ModifiedRemote are the HTLC ids of the local /
 	// remote log that are marked as already settled or failed.
 	ModifiedLocal, ModifiedRemote []uint64
@@ -80,11 +80,11 @@ func verifLog(l *updateLog) []VerifLogEntry {
 			Type: typ, LogIndex: pd.LogIndex, HtlcIndex: pd.HtlcIndex,
 			ParentIndex: pd.ParentIndex,
 			AmountMsat:  uint64(pd.Amount), RHash: pd.RHash,
-			Timeout:     pd.Timeout,
-			AddLocal:    pd.addCommitHeights.Local,
-			AddRemote:   pd.addCommitHeights.Remote,
-			RmLocal:     pd.removeCommitHeights.Local,
-			RmRemote:    pd.removeCommitHeights.Remote,
+			Timeout:   pd.Timeout,
+			AddLocal:  pd.addCommitHeights.Local,
+			AddRemote: pd.addCommitHeights.Remote,
+			RmLocal:   pd.removeCommitHeights.Local,
+			RmRemote:  pd.removeCommitHeights.Remote,
 		})
 	}
 	return out
@@ -125,4 +125,13 @@ func (lc *LightningChannel) VerifSnapshot() VerifSnap {
 		ModifiedLocal:     verifModified(lc.updateLogs.Local),
 		ModifiedRemote:    verifModified(lc.updateLogs.Remote),
 	}
+}
+
+// VerifClearClosed undoes the in-memory "closed" mark ForceClose leaves on
+// the object, so that a harness can look at the force-close summary of a live
+// channel and carry on with the schedule.
+func (lc *LightningChannel) VerifClearClosed() {
+	lc.Lock()
+	lc.isClosed = false
+	lc.Unlock()
 }
